@@ -366,3 +366,35 @@ def stub_hasher(alg_name, data):
     h = HashStub(a)
     h.update(data)
     return h.finalize()
+
+
+# ------------------------------------------------------------------------------------------------ KMS / signer seams (E1)
+
+
+class KMSRecorder:
+    """Stands in for the KMS object behind ncs/sign_script.py and ncs/encrypt_script.py (seam: kms.sign / kms.encrypt).
+    The real ncs/basic_kms.py is decided separately (E2 obligations)."""
+
+    LOG = []
+    SIGNATURES = []  # values to return, consumed in order (symbolic bytes)
+    ENCRYPTS = []  # (nonce, tag, ciphertext) to return
+    FAIL = None  # exception to raise from sign()
+
+    def init_kms(self, context):
+        KMSRecorder.LOG.append(("init", context))
+
+    def sign(self, data, key_name, algorithm, context):
+        KMSRecorder.LOG.append(("sign", data, key_name, algorithm, context))
+        if KMSRecorder.FAIL is not None:
+            raise KMSRecorder.FAIL
+        i = sum(1 for e in KMSRecorder.LOG if e[0] == "sign") - 1
+        return KMSRecorder.SIGNATURES[i]
+
+    def encrypt(self, plaintext, key_name, context, aad):
+        KMSRecorder.LOG.append(("encrypt", plaintext, key_name, context, aad))
+        i = sum(1 for e in KMSRecorder.LOG if e[0] == "encrypt") - 1
+        return KMSRecorder.ENCRYPTS[i]
+
+    @classmethod
+    def reset(cls):
+        cls.LOG, cls.SIGNATURES, cls.ENCRYPTS, cls.FAIL = [], [], [], None
